@@ -15,7 +15,7 @@ MaxDepth == Cat.depth
 VARIABLES st, hist, res
 vars == <<st, hist, res>>
 
-OpRec(i) == [k |-> Ops[i].k, id |-> Ops[i].id, id2 |-> Ops[i].id2,
+OpRec(i) == [k |-> Ops[i].k, id |-> Ops[i].id, id2 |-> Ops[i].id2, n |-> Ops[i].n,
              l |-> IF Ops[i].l >= 1 THEN Cat.pool[Ops[i].l] ELSE [rt |-> "none"]]
 
 \* generation guards: keep the operations that can tell something apart
@@ -29,6 +29,7 @@ Guard(s, i) ==
     [] op.k \in {"settag", "deltag"} -> op.id \in NamesOf(s)
     [] op.k = "flush" -> s.queue # <<>>
     [] op.k = "unused" -> TRUE
+    [] op.k \in {"rsc", "rsl"} -> s.lines # <<>>
     [] OTHER -> FALSE
 
 \* outcomes that leave the modelled behaviour (orphan placeholders, ambiguous
